@@ -85,7 +85,9 @@ func (k *KVStore) SetConfig(c *storage.Config) {
 func (k *KVStore) makeTable() error {
 	if len(k.tables) != 0 {
 		head := k.tables[len(k.tables)-1]
-		head.SetState(table.ReadOnlyState)
+		if head.State() != table.RecycledState {
+			head.SetState(table.ReadOnlyState)
+		}
 
 		for i, t := range k.tables {
 			if t.State() == table.RecycledState {
@@ -185,7 +187,10 @@ func (k *KVStore) PutRaw(hkey uint64, value []byte) error {
 		return storage.ErrEntryTooLarge
 	}
 
-	if len(k.tables) == 0 {
+	if len(k.tables) == 0 || k.tables[len(k.tables)-1].State() == table.RecycledState {
+		// A transfer that dropped every live table may leave only recycled tables
+		// behind. A recycled table is not registered in tablesByCoefficient: it has
+		// to be put back to use by makeTable, otherwise Scan never visits it.
 		if err := k.makeTable(); err != nil {
 			return err
 		}
@@ -229,7 +234,10 @@ func (k *KVStore) Put(hkey uint64, value storage.Entry) error {
 		return storage.ErrEntryTooLarge
 	}
 
-	if len(k.tables) == 0 {
+	if len(k.tables) == 0 || k.tables[len(k.tables)-1].State() == table.RecycledState {
+		// A transfer that dropped every live table may leave only recycled tables
+		// behind. A recycled table is not registered in tablesByCoefficient: it has
+		// to be put back to use by makeTable, otherwise Scan never visits it.
 		if err := k.makeTable(); err != nil {
 			return err
 		}
